@@ -39,11 +39,11 @@ PROJECTQ = ["H", "X", "Y", "Z", "S", "T", "RX", "RY", "RZ", "PHASE", "CNOT"]
 
 
 def cases(tier, seed):
-    n = 240 if tier == "quick" else 80000
+    n = 240 if tier == "quick" else 500000
     out = [{"sub": "ionq", "i": i} for i in range(n)]
     out += [{"sub": "projectq", "i": i} for i in range(n)]
-    out += [{"sub": "repr", "i": i} for i in range(16 if tier == "quick" else 4000)]
-    out += [{"sub": "operator", "i": i} for i in range(64 if tier == "quick" else 20000)]
+    out += [{"sub": "repr", "i": i} for i in range(16 if tier == "quick" else 20000)]
+    out += [{"sub": "operator", "i": i} for i in range(64 if tier == "quick" else 100000)]
     out += [{"sub": "refuse"}]
     return out
 
